@@ -752,6 +752,17 @@ def gen_mv_ops(r):
         else:
             now += r.choice([0, 5, 10, 11, 100, 101, 1000])
             ops.append(["boot", now])
+    if r.random() < 0.35:
+        # directed tail: a persistent variable whose expiry has passed while the machine kept running gets a NEW value (the
+        # expiry restarts at that moment), nothing else is written afterwards, and the machine reboots shortly before /
+        # at / after the restarted expiry - what is on disk must carry the restarted expiry, not the old one
+        n, e = r.randint(1, 4), r.choice([10, 100])
+        ops.append(["cfg", now, n, True, e])
+        now += e + r.choice([1, 5, 50])
+        ops.append(["set", now, n, r.randint(2000, 3000), False])
+        now += e + r.choice([-5, -1, 0, 1])
+        ops.append(["boot", now])
+        return ops
     now += r.choice([0, 9, 10, 11, 100, 101])
     ops.append(["boot", now])
     return ops
@@ -792,6 +803,16 @@ def mv_run(ops, model=None):
                 break
             if model is not None:
                 cmp_.append((op, mv_canon(line), mv_canon(model.ask(mv_line(op)))))
+        # model-independent oracle for the directed tail [cfg(n, persistent, e) at C; set(n, NEW value) at T; boot at B]:
+        # the set restarts the expiry, so on a boot before T + e the variable reloads with the value last set
+        if len(ops) >= 3 and ops[-1][0] == "boot" and ops[-2][0] == "set" and ops[-3][0] == "cfg" \
+                and ops[-3][2] == ops[-2][2] and ops[-3][3] and ops[-3][4] and not verdicts:
+            n, e, t_set, v, b = ops[-2][2], ops[-3][4], ops[-2][1], ops[-2][3], ops[-1][1]
+            if b < t_set + e:
+                got = rig.mv.machine_vars.get("v%d" % n, {}).get("value", "<absent>")
+                if got != v:
+                    verdicts.append(("persistent-var-lost-before-expiry",
+                                     {"var": n, "set_at": t_set, "value": v, "expire_secs": e, "boot_at": b, "reloaded": repr(got)}))
         return verdicts, cmp_
     finally:
         rig.close()
